@@ -200,105 +200,159 @@ Section Ring32.
 End Ring32.
 
 (* ==================================================================== Part 2: RecInt Montgomery *)
-(* RecInt primitives on ruint<K> values seen as integers in [0, B).  The C06 theorems state that the
-   limb-level code computes exactly these functions. *)
-Record prims : Type := MkPrims {
-  pB : Z;                                    (* B = 2^(2^K) *)
-  p_add : Z -> Z -> Z * bool;                (* add(r, a, b, c): (a, carry) *)
-  p_sub : Z -> Z -> Z;                       (* sub(a, b, c): b - c mod B *)
-  p_mul : Z -> Z -> Z;                       (* mul(a, b, c): low part *)
-  p_lmul : Z -> Z -> Z;                      (* lmul(ruint<K+1>&, b, c): the double-size product *)
-  p_laddmul : Z -> Z -> Z -> bool * Z * Z;   (* laddmul(r, ah, al, b, c, d), d of size K or K+1: (r, ah, al) *)
-  p_ltb : Z -> Z -> bool;                    (* operator< *)
-  p_leb : Z -> Z -> bool;                    (* operator>= swapped *)
-  p_eqb : Z -> Z -> bool;
-  p_neg : Z -> Z;                            (* unary minus on ruint<K> *)
-  p_arazi_qi : Z -> Z;                       (* arazi_qi(u, a) *)
-  p_mod_n : Z -> Z -> Z;                     (* mod_n(a, b, n), b of size K or K+1 *)
-  p_inv_mod : Z -> Z -> Z                    (* inv_mod(a, b, c) *)
-}.
+(* rmint<K,MG_ACTIVE>, rmint<K,MG_INACTIVE> (src/kernel/recint/rm*.h) and Givaro::Montgomery<ruint<K>>
+   (src/kernel/ring/montgomery-ruint.{h,inl}), K = k + 6.  A ruint<K> is the integer in [0, B) it denotes,
+   B = Bk k = 2^(2^K); a ruint<K+1> is an integer in [0, B*B).  The RecInt primitives the Montgomery code calls
+   (add with carry, sub, mul, lmul, lsquare, laddmul, mod_n, div, comparisons: property C06) are written as the
+   integer operations they implement, with the wrap modulo B made explicit wherever the C++ stores into a
+   ruint<K>; arazi_qi (rmgmodule.h) and inv_mod (ruinvmod.h) are modelled loop by loop. *)
+Definition Bk (k : nat) : Z := 2 ^ (64 * 2 ^ Z.of_nat k).
 
-(* the Z-level instance: each primitive IS its specification *)
-Definition inv_mod_z (b c : Z) : Z :=
-  match extended_euclid (fun z => z) b c with Some (x, _) => x mod c | None => 0 end.
-Definition zprims (Bk : Z) : prims :=
-  MkPrims Bk
-    (fun a b => ((a + b) mod Bk, Bk <=? a + b))
-    (fun a b => (a - b) mod Bk)
-    (fun a b => (a * b) mod Bk)
-    (fun a b => a * b)
-    (fun b c d => let s := b * c + d in (Bk * Bk <=? s, (s / Bk) mod Bk, s mod Bk))
-    Z.ltb Z.leb Z.eqb
-    (fun a => (- a) mod Bk)
-    (fun a => match invext (fun z => z) (a mod Bk) Bk with Some x => x | None => 0 end)
-    (fun b n => b mod n)
-    inv_mod_z.
+(* ---- rmgmodule.h: arazi_qi.  Base case ruint<6>: the Newton product on one limb (UDItype arithmetic wraps) *)
+Fixpoint aq_loop (fuel : nat) (i amone u : Z) : Z * Z :=
+  match fuel with
+  | O => (amone, u)
+  | S f =>
+      if i <? 64 then                                   (* for (i = 2; i < __RECINT_LIMB_BITS; i <<= 1) *)
+        let amone := u64 (amone * amone) in             (* amone *= amone *)
+        let amone1 := u64 (amone + 1) in                (* ++amone *)
+        let u := u64 (u * amone1) in                    (* u.Value *= ++amone *)
+        let amone := u64 (amone1 - 1) in                (* --amone *)
+        aq_loop f (Z.shiftl i 1) amone u
+      else (amone, u)
+  end.
+Definition arazi_qi_64 (a : Z) : Z :=
+  if a =? 1 then 1 else
+  let u := snd (aq_loop 64 2 (u64 (a - 1)) 1) in
+  u64 (u * u64 (2 - a)).                                (* u.Value *= (2 - a.Value) *)
+(* recursive step: u.Low = arazi_qi(a.Low); lmul(t1,t2,u.Low,a.Low) [t1 = high half]; mul(t2,u.Low,a.High);
+   add(t1,t2); mul(t1,u.Low); u.High = -t1 *)
+Fixpoint arazi_qi (k : nat) (a : Z) : Z :=
+  match k with
+  | O => arazi_qi_64 a
+  | S k' =>
+      let b := Bk k' in
+      let aL := a mod b in
+      let aH := (a / b) mod b in
+      let uL := arazi_qi k' aL in
+      let t1 := (uL * aL) / b in
+      let t2 := (uL * aH) mod b in
+      let t1 := (t1 + t2) mod b in
+      let t1 := (t1 * uL) mod b in
+      uL + b * ((- t1) mod b)
+  end.
 
-(* module data of rmint<K,MGA> (static members p, p1, r) and of Montgomery<ruint<K>> (_p,_p1,_r,_r2,_r3) *)
+(* ---- ruinvmod.h: inv_mod(a, b, c), state (a, x, a2, b2); the while loop runs through inv_iter, which performs
+   up to 2^n steps and stops as soon as b2 = 0 *)
+Record ist : Type := MkIst { i_a : Z; i_x : Z; i_a2 : Z; i_b2 : Z }.
+Definition inv_step (B c : Z) (s : ist) : ist :=
+  if i_b2 s =? 0 then s else
+  let q := i_a2 s / i_b2 s in                           (* div(q, r, a2, b2) *)
+  let r := i_a2 s mod i_b2 s in
+  let temp := (q * i_x s) mod c in                      (* lmul(resmul, q, x); mod_n(temp, resmul, c) *)
+  let temp := if temp =? 0 then temp else (c - temp) mod B in   (* if (temp != 0) sub(temp, c, temp) *)
+  let sm := temp + i_a s in                             (* add(ret, temp, a) *)
+  let t2 := sm mod B in
+  let temp := if (B <=? sm) || (c <=? t2) then (t2 - c) mod B else t2 in   (* if (ret || temp >= c) sub(temp, c) *)
+  MkIst (i_x s) temp (i_b2 s) r.                        (* copy(a, x); copy(x, temp); a2 = b2; b2 = r *)
+Fixpoint inv_iter (n : nat) (B c : Z) (s : ist) : ist :=
+  if i_b2 s =? 0 then s else
+  match n with
+  | O => inv_step B c s
+  | S m => inv_iter m B c (inv_iter m B c s)
+  end.
+Definition inv_mod (B b c : Z) : Z := i_a (inv_iter (Z.to_nat (Z.log2_up B)) B c (MkIst 1 0 b c)).
+
+(* module data of rmint<K,MGA> (static p, p1, r) and of Montgomery<ruint<K>> (_p,_p1,_r,_r2,_r3, one, mOne) *)
 Record mgmod : Type := MkMod { g_p : Z; g_p1 : Z; g_r : Z; g_r2 : Z; g_r3 : Z; g_one : Z; g_mOne : Z }.
 
 Section RecIntMG.
-  Variable P : prims.
-  Let B := pB P.
+  Variable k : nat.
+  Let B := Bk k.
 
-  (* ---- rmgreduc.h / montgomery-ruint.inl: the Montgomery reduction, for a ruint<K> or ruint<K+1> input.
+  (* ---- rmgreduc.h reduction(t, a) / montgomery-ruint.inl mg_reduc(a, b), for a ruint<K> or a ruint<K+1>:
      mul(a0, a.Low, p1); laddmul(r, t, a0, a0, p, a); if (r || t >= p) sub(t, p) *)
   Definition reduction (p p1 : Z) (a : Z) : Z :=
-    let a0 := p_mul P (a mod B) p1 in            (* a.Low (a itself when a is a ruint<K>) *)
-    let '(r, t, _) := p_laddmul P a0 p a in
-    if r || p_leb P p t then p_sub P t p else t.
+    let a0 := ((a mod B) * p1) mod B in
+    let s := a0 * p + a in                       (* laddmul: (r, t, a0) = a0 * p + a *)
+    let r := B * B <=? s in
+    let t := (s / B) mod B in
+    if r || (p <=? t) then (t - p) mod B else t.
 
-  (* ---- rmint<K,MGA> *)
-  (* init_module: copy(p,_p); arazi_qi(p1, -_p); div_r(r, -_p, _p)   [div_r = remainder, as mod_n] *)
+  (* ---- rmadd.h / rmsub.h / rmneg.h (common to both variants) and the same bodies in montgomery-ruint.inl *)
+  Definition rm_add (p : Z) (b c : Z) : Z :=              (* add(r, a, b, c); if (r || a >= p) sub(a, p) *)
+    let s := b + c in let a := s mod B in
+    if (B <=? s) || (p <=? a) then (a - p) mod B else a.
+  Definition rm_sub (p : Z) (b c : Z) : Z :=              (* if (b < c) { sub(a, p, c); add(a, b) } else sub(a, b, c) *)
+    if b <? c then (((p - c) mod B) + b) mod B else (b - c) mod B.
+  Definition rm_subin (p : Z) (a b : Z) : Z :=            (* if (a < b) add(a, p - b) else sub(a, b) *)
+    if a <? b then (a + ((p - b) mod B)) mod B else (a - b) mod B.
+  Definition rm_neg (p : Z) (b : Z) : Z := if b =? 0 then 0 else (p - b) mod B.
+
+  (* LSB-first square and multiply, n loop turns (ruexp.h exp_mod; rmgexp.h UDItype version stops at exp = 0) *)
+  Fixpoint pow_lsb (mul : Z -> Z -> Z) (n : nat) (a x e : Z) : Z :=
+    match n with
+    | O => a
+    | S m => let a := if Z.odd e then mul a x else a in pow_lsb mul m a (mul x x) (Z.shiftr e 1)
+    end.
+  Fixpoint pow_lsb_stop (mul : Z -> Z -> Z) (n : nat) (a x e : Z) : Z :=
+    match n with
+    | O => a
+    | S m => if e =? 0 then a else
+             let a := if Z.odd e then mul a x else a in pow_lsb_stop mul m a (mul x x) (Z.shiftr e 1)
+    end.
+
+  (* ================= rmint<K, MG_ACTIVE> *)
+  (* init_module: copy(p,_p); arazi_qi(p1, -_p); div_r(r, -_p, _p) *)
   Definition mga_init_module (p : Z) : mgmod :=
-    let p1 := p_arazi_qi P (p_neg P p) in
-    let r := p_mod_n P (p_neg P p) p in
+    let np := (- p) mod B in
+    let p1 := arazi_qi k np in
+    let r := np mod p in
     MkMod p p1 r 0 0 r 0.
   Section MGA.
     Variable M : mgmod.
     Let p := g_p M.
-    (* to_mg(a, b): res.High = b, res.Low = 0; mod_n(a, res, p) *)
-    Definition mga_to_mg (b : Z) : Z := p_mod_n P (b * B) p.
+    (* to_mg(a, b): res.High = b (res.Low = 0); mod_n(a, res, p) *)
+    Definition mga_to_mg (b : Z) : Z := (b * B) mod p.
     Definition mga_reduction (a : Z) : Z := reduction p (g_p1 M) a.
-    Definition mga_get_ruint (a : Z) : Z := mga_reduction a.           (* cast to an integer type *)
-    Definition mga_of_ruint (c : Z) : Z := mga_to_mg c.                  (* rmint(const ruint<K>&) *)
-    Definition mga_mul (b c : Z) : Z := mga_reduction (p_lmul P b c).    (* rmmul.h mul / operator* *)
-    Definition mga_square (b : Z) : Z := mga_reduction (p_lmul P b b).   (* lsquare *)
-    (* rmadd.h: add(r, a, b, c); if (r || a >= p) sub(a, p) *)
-    Definition rm_add (p : Z) (b c : Z) : Z :=
-      let '(a, r) := p_add P b c in if r || p_leb P p a then p_sub P a p else a.
-    (* rmsub.h (three-address): if (b < c) { sub(a, p, c); add(a, b) } else sub(a, b, c) *)
-    Definition rm_sub (p : Z) (b c : Z) : Z :=
-      if p_ltb P b c then fst (p_add P (p_sub P p c) b) else p_sub P b c.
-    (* rmsub.h (in place): if (a < b) add(a, p - b) else sub(a, b) *)
-    Definition rm_subin (p : Z) (a b : Z) : Z :=
-      if p_ltb P a b then fst (p_add P a (p_sub P p b)) else p_sub P a b.
-    (* rmneg.h: if (b != 0) sub(a, p, b) else reset *)
-    Definition rm_neg (p : Z) (b : Z) : Z := if p_eqb P b 0 then 0 else p_sub P p b.
+    Definition mga_get_ruint (a : Z) : Z := mga_reduction a.            (* get_ruint, cast operators, rmint_to_mpz *)
+    (* constructors (rmgrmint.h) *)
+    Definition mga_of_ruint (c : Z) : Z := mga_to_mg c.                   (* rmint(const ruint<K>&), mpz_to_rmint *)
+    Definition mga_of_unsigned (b : Z) : Z := mga_to_mg b.                (* rmint(T b), T unsigned *)
+    Definition mga_of_signed (b : Z) : Z :=                               (* Value(|b|); mod_n; if (b<0) sub(Value,p,Value); to_mg *)
+      let v := (Z.abs b) mod p in
+      let v := if b <? 0 then (p - v) mod B else v in
+      mga_to_mg v.
+    Definition mga_of_rint (c : Z) : Z :=                                 (* Value(|c|); to_mg; if (c<0) neg(this) *)
+      let v := mga_to_mg (Z.abs c) in
+      if c <? 0 then rm_neg p v else v.
+    Definition mga_of_mgi (c : Z) : Z := mga_to_mg c.                     (* rmint(const rmint<K,MGI>&) *)
+    (* rmmul.h: lmul(resmul, b, c); reduction(a, resmul) -- square: lsquare *)
+    Definition mga_mul (b c : Z) : Z := mga_reduction (b * c).
+    Definition mga_square (b : Z) : Z := mga_reduction (b * b).
+    Definition mga_mul_T (b c : Z) : Z := mga_mul b (mga_of_unsigned c).  (* rmgmul.h: rmint cr(c); mul(a,b,cr) *)
     Definition mga_add := rm_add p.
     Definition mga_sub := rm_sub p.
     Definition mga_subin := rm_subin p.
     Definition mga_neg := rm_neg p.
+    Definition mga_add_T (b c : Z) : Z := rm_add p b (mga_of_unsigned c).
+    Definition mga_sub_T (b c : Z) : Z := rm_sub p b (mga_of_unsigned c).
+    Definition mga_T_sub (c b : Z) : Z := rm_neg p (rm_sub p b (mga_of_unsigned c)).   (* operator-(T, rmint) *)
     (* rmginv.h: reduction(a, b); inv_mod(a, a, p); to_mg(a) *)
-    Definition mga_inv (b : Z) : Z := mga_to_mg (p_inv_mod P (mga_reduction b) p).
+    Definition mga_inv (b : Z) : Z := mga_to_mg (inv_mod B (mga_reduction b) p).
+    Definition mga_inv_T (b : Z) : Z := mga_to_mg (inv_mod B b p).        (* inv(a, T b) *)
     (* rmdiv.h: inv(ci, c); if (ci == 0) reset(a) else mul(a, b, ci) *)
     Definition mga_div (b c : Z) : Z :=
-      let ci := mga_inv c in if p_eqb P ci 0 then 0 else mga_mul b ci.
-    (* rmgexp.h, UDItype exponent: binary square and multiply, exp consumed from the low bit *)
-    Fixpoint mga_exp_loop (fuel : nat) (a x e : Z) : Z :=
-      match fuel with
-      | O => a
-      | S f => if e =? 0 then a else
-          let a := if Z.odd e then mga_mul a x else a in
-          let x := mga_mul x x in
-          mga_exp_loop f a x (Z.shiftr e 1)
-      end.
-    Definition mga_exp_u (b e : Z) : Z := mga_exp_loop 64 (g_r M) b e.
-    (* rmgexp.h, ruint<K> exponent: 4-bit windows from the top; nw = 16 * NBLIMB windows.
-       g[0] = r, g[i] = g[i-1]*b; per window: a = a*g[w]; then four squarings, except after the last *)
-    Fixpoint mga_table (n : nat) (b : Z) : list Z :=
+      let ci := mga_inv c in if ci =? 0 then 0 else mga_mul b ci.
+    (* rmgaddmul.h: mul(res, b, c); add(a, res) *)
+    Definition mga_addmul (a b c : Z) : Z := rm_add p a (mga_mul b c).
+    (* rmgexp.h, UDItype exponent *)
+    Definition mga_exp_u (b e : Z) : Z := pow_lsb_stop mga_mul 64 (g_r M) b e.
+    (* rmgexp.h, ruint<K> exponent: 4-bit windows from the top; 16 * NBLIMB windows.
+       g[0] = r, g[i] = g[i-1]*b; per window: a = a*g[w], then four squarings, except after the last window *)
+    Fixpoint mga_table (n : nat) (b : Z) : list Z :=          (* g[n] :: ... :: g[0] *)
       match n with O => g_r M :: nil | S m => let t := mga_table m b in mga_mul (hd 0 t) b :: t end.
-    Definition mga_g (tab : list Z) (i : Z) : Z := nth (15 - Z.to_nat i) tab 0.   (* tab is g[15] :: ... :: g[0] *)
+    Definition mga_g (tab : list Z) (i : Z) : Z := nth (15 - Z.to_nat i) tab 0.
     Fixpoint mga_win_loop (tab : list Z) (n : nat) (a c : Z) : Z :=
       match n with
       | O => a
@@ -310,54 +364,61 @@ Section RecIntMG.
           | S _ => mga_win_loop tab m (mga_square (mga_square (mga_square (mga_square a)))) c
           end
       end.
-    Definition mga_exp_ru (nw : nat) (b c : Z) : Z := mga_win_loop (mga_table 15 b) nw (g_r M) c.
+    Definition mga_exp_ru (b c : Z) : Z := mga_win_loop (mga_table 15 b) (16 * 2 ^ k)%nat (g_r M) c.
+    (* rmcmp.h: a == b on the representations; a == ruint: the ruint is montgomerized first *)
+    Definition mga_eq (a b : Z) : bool := a =? b.
+    Definition mga_eq_ruint (a c : Z) : bool := a =? mga_of_ruint c.
   End MGA.
 
-  (* ---- rmint<K,MGI> (no Montgomery form): rmbreduc.h, rmbmul.h/rmmul.h, rmbinv.h, rmbexp.h *)
+  (* ================= rmint<K, MG_INACTIVE> *)
   Section MGI.
     Variable p : Z.
-    Definition mgi_of_ruint (c : Z) : Z := p_mod_n P c p.
+    Definition mgi_of_ruint (c : Z) : Z := c mod p.
+    Definition mgi_of_signed (b : Z) : Z :=
+      let v := (Z.abs b) mod p in if b <? 0 then (p - v) mod B else v.
+    Definition mgi_of_rint (c : Z) : Z :=
+      let v := (Z.abs c) mod p in if c <? 0 then rm_neg p v else v.
     Definition mgi_get_ruint (a : Z) : Z := a.
-    Definition mgi_mul (b c : Z) : Z := p_mod_n P (p_lmul P b c) p.
+    Definition mgi_mul (b c : Z) : Z := (b * c) mod p.           (* lmul; mod_n  (also the limb form b * T) *)
     Definition mgi_add := rm_add p.
     Definition mgi_sub := rm_sub p.
     Definition mgi_subin := rm_subin p.
     Definition mgi_neg := rm_neg p.
-    Definition mgi_inv (b : Z) : Z := p_inv_mod P b p.
+    Definition mgi_add_T (b c : Z) : Z := rm_add p b (mgi_of_ruint c).
+    Definition mgi_sub_T (b c : Z) : Z := rm_sub p b (mgi_of_ruint c).
+    Definition mgi_T_sub (c b : Z) : Z := rm_neg p (rm_sub p b (mgi_of_ruint c)).
+    Definition mgi_inv (b : Z) : Z := inv_mod B b p.
     Definition mgi_div (b c : Z) : Z :=
-      let ci := mgi_inv c in if p_eqb P ci 0 then 0 else mgi_mul b ci.
-    Fixpoint mgi_exp_loop (fuel : nat) (a x e : Z) : Z :=
-      match fuel with
-      | O => a
-      | S f => if e =? 0 then a else
-          let a := if Z.odd e then mgi_mul a x else a in
-          let x := mgi_mul x x in
-          mgi_exp_loop f a x (Z.shiftr e 1)
-      end.
+      let ci := mgi_inv c in if ci =? 0 then 0 else mgi_mul b ci.
+    Definition mgi_addmul (a b c : Z) : Z := (b * c + a) mod p.   (* laddmul(res, b, c, a); reduction *)
+    (* rmbexp.h -> ruexp.h exp_mod: a = 1; every bit of the exponent type, LSB first *)
+    Definition mgi_exp (nbits : nat) (b e : Z) : Z := pow_lsb mgi_mul nbits 1 b e.
   End MGI.
+  (* rmint<K,MGI>(const rmint<K,MGA>&): leaves Montgomery form (as repaired by frag/C07.fix-2), then reduction *)
+  Definition mgi_of_mga (M : mgmod) (c : Z) : Z := (mga_get_ruint M c) mod (g_p M).
 
-  (* ---- Givaro::Montgomery<ruint<K>> (montgomery-ruint.h/.inl) *)
-  Definition mr_mul_raw (p p1 : Z) (a b : Z) : Z := reduction p p1 (p_lmul P a b).
+  (* ================= Givaro::Montgomery<ruint<K>> *)
   Definition mr_mk (p : Z) : mgmod :=
-    let p1 := p_arazi_qi P (p_neg P p) in
-    let r := p_mod_n P (p_neg P p) p in
-    let r2 := p_mod_n P (p_lmul P r r) p in
-    let r3 := p_mod_n P (p_lmul P r2 r) p in
+    let np := (- p) mod B in
+    let p1 := arazi_qi k np in                    (* arazi_qi(_p1, -_p) *)
+    let r := np mod p in                          (* mod_n(_r, -_p, _p) *)
+    let r2 := (r * r) mod p in
+    let r3 := (r2 * r) mod p in
     let one := r in
-    let mOne := mr_mul_raw p p1 (p_sub P p 1) r2 in     (* to_mg(mOne, _p - 1u) = mul(mOne, _p-1, _r2) *)
+    let mOne := reduction p p1 (((p - 1) mod B) * r2) in     (* to_mg(mOne, _p - 1u) = mul(mOne, _p - 1, _r2) *)
     MkMod p p1 r r2 r3 one mOne.
   Section MR.
     Variable M : mgmod.
     Let p := g_p M.
     Definition mr_reduc (b : Z) : Z := reduction p (g_p1 M) b.
-    Definition mr_mul (a b : Z) : Z := mr_reduc (p_lmul P a b).
+    Definition mr_mul (a b : Z) : Z := mr_reduc (a * b).
     Definition mr_to_mg (b : Z) : Z := mr_mul b (g_r2 M).
     Definition mr_add := rm_add p.
     Definition mr_sub := rm_sub p.
     Definition mr_subin := rm_subin p.
     Definition mr_neg := rm_neg p.
-    Definition mr_inv (a : Z) : Z := mr_mul (p_inv_mod P a p) (g_r3 M).      (* inv_mod; mulin(r, _r3) *)
-    Definition mr_div (a b : Z) : Z := mr_mul (mr_inv b) a.                   (* mulin(inv(r,b), a) *)
+    Definition mr_inv (a : Z) : Z := mr_mul (inv_mod B a p) (g_r3 M).          (* inv_mod; mulin(r, _r3) *)
+    Definition mr_div (a b : Z) : Z := mr_mul (mr_inv b) a.                     (* mulin(inv(r,b), a) *)
     Definition mr_divin (r a : Z) : Z := mr_mul r (mr_inv a).
     Definition mr_axpy (a b c : Z) : Z := mr_add (mr_mul a b) c.
     Definition mr_axpyin (r a b : Z) : Z := mr_add r (mr_mul a b).
@@ -365,12 +426,13 @@ Section RecIntMG.
     Definition mr_maxpyin (r a b : Z) : Z := mr_subin r (mr_mul a b).
     Definition mr_axmy (a b c : Z) : Z := mr_subin (mr_mul a b) c.
     Definition mr_axmyin (r a b : Z) : Z := mr_sub (mr_mul a b) r.
-    (* init<T>: reduce(r, |a|) (x = y % _p); if (a<0) negin(r); to_mg(r) *)
+    (* init<T> / init(Integer): reduce(r, Caster<Element>(|a|)); if (a<0) negin(r); to_mg(r) *)
     Definition mr_init (a : Z) : Z :=
-      let r := p_mod_n P (Z.abs a) p in
+      let r := ((Z.abs a) mod B) mod p in
       let r := if a <? 0 then mr_neg r else r in
       mr_to_mg r.
     Definition mr_convert (a : Z) : Z := mr_reduc a.
+    Definition mr_isUnit (a : Z) : bool := Z.gcd a p =? 1.
   End MR.
 End RecIntMG.
 
